@@ -31,6 +31,27 @@ def replay_callbacks(ctx):
     return out
 
 
+def version_field_names(ctx):
+    """Names of the crate's struct/variant fields whose type is a NonZero integer - the record/op versions (by type, so a
+    renamed field is still the version)."""
+    c = ctx.__dict__.get("_version_fields")
+    if c is None:
+        c = set()
+        for path, adt in ctx.prog.adts.items():
+            if not adt.get("local", True) and "::" in path and path.startswith("std::"):
+                continue
+            for v in adt.get("variants", []):
+                for f in v["fields"]:
+                    if "NonZero" in ctx.prog.ty_str(f["ty"]):
+                        c.add(f["name"])
+        ctx.__dict__["_version_fields"] = c
+    return c
+
+
+def is_version_leaf(ctx, l):
+    return bool(l[-1]) and l[-1][-1] in version_field_names(ctx)
+
+
 def rules(ctx, tier):
     out = []
     prog = ctx.prog
@@ -57,6 +78,18 @@ def rules(ctx, tier):
                 "%s is reachable only while loading the snapshot / replaying the log" % cu.describe(),
                 "%s is neither on the logged path nor part of snapshot load / replay" % cu.describe(),
                 site_where(cu.site))
+    # the key map / refcount map replaced as a whole (`state.key_to_hash = ..`): a mutation like any other, and never
+    # on a live path - an assignment is not an event of the ordering analysis, so it is confined here
+    for w in ctx.world.field_writes:
+        if ANCHOR_FIELDS.get(w.field) not in ("KEYMAP", "REFCNT"):
+            continue
+        p = w.body.path
+        is_ctor = any(st["k"] == "assign" and st["rv"]["k"] == "agg" and st["rv"].get("def") == w.field[1]
+                      for bb in w.body.normal_blocks() for st in w.body.stmts(bb))
+        r.check(p in load_reach and p not in live_reach or is_ctor, "load-only:assign:%s" % w.field[2], w.body,
+                "%s happens only while loading the snapshot" % w.describe(),
+                "%s replaces the map as a whole outside snapshot load (no log record describes that change)" % w.describe(),
+                "%s:%d" % (w.body.file, w.line))
     r.check(len(loaders) == 1, "snapshot-loader", None, "snapshot loader: %s" % ", ".join(b.path for b in loaders),
             "expected one body reading the index file, found %d" % len(loaders))
     r.check(len(cbs) >= 1, "replay-callback", None, "replay callback(s): %s" % ", ".join(stable_path(b) for b in cbs),
@@ -316,10 +349,10 @@ def snapshot_version(ctx, r, loaders):
                             site_where(s), sorted(seen)), site_where(s))
 
 
-def load_rebuilds(ctx, r, loaders, cbs):
+def loader_refcounts(ctx, r, loaders):
+    """In the loader: the key map is filled (insert per key, or assigned as a whole) and the reference count of every
+    loaded key's hash is bumped once - per insert in the same iteration, or in a loop over the filled map."""
     prog = ctx.prog
-    A = ctx.anchors
-    # (a) in the loader: every key-map insert is followed in the same iteration by a refcount increment of the same item
     for lb in loaders:
         sl = Slicer(ctx.world, lb)
         inserts = [cu for cu in ctx.world.container_uses if cu.site.body.path == lb.path and
@@ -350,8 +383,57 @@ def load_rebuilds(ctx, r, loaders, cbs):
                     "every loaded key bumps the refcount of its own hash (%s)" % site_where(cu.site),
                     "a key inserted at %s is not followed (in the same iteration, for the same item) by a refcount "
                     "increment" % site_where(cu.site), site_where(cu.site))
-        r.check(bool(inserts), "loader-inserts", lb, "%d insert site(s) in the loader" % len(inserts),
-                "the snapshot loader does not insert into the key map")
+        # the maps assigned as a whole (`state.key_to_hash = decoded.collect()`)
+        whole_keys = [w for w in ctx.world.field_writes if w.body.path == lb.path and ANCHOR_FIELDS.get(w.field) == "KEYMAP"]
+        whole_refs = [w for w in ctx.world.field_writes if w.body.path == lb.path and ANCHOR_FIELDS.get(w.field) == "REFCNT"]
+        for w in whole_refs:
+            r.bad("refcount-rebuild", lb,
+                  "the loader assigns the reference-count map as a whole at %s:%d (collected pairs): entries with the same "
+                  "hash collapse into one, so a hash shared by n keys does not get the count n - the first remove of one "
+                  "sharer unlinks a blob the others still reference" % (lb.file, w.line), "%s:%d" % (lb.file, w.line))
+        for w in whole_keys:
+            # then the counts must come from a loop over the filled map that bumps once per entry
+            ok = False
+            from .c01 import derives_from
+            base = lambda ls: set((l[0], l[1], l[2]) if l[0] == "call" else (l[0], l[1]) for l in ls)
+            for inc in incs:
+                if not lb.dominates(w.bb, inc.bb):
+                    continue
+                ha = set()
+                for a in inc.term["args"][1:]:
+                    ha |= sl.leaves_of_operand(a)
+                for nx in lb.calls():
+                    if (nx.path or "") != "std::iter::Iterator::next" or not lb.dominates(nx.bb, inc.bb) \
+                            or not lb.dominates(w.bb, nx.bb):
+                        continue
+                    # the loop runs over (values of) the key map, and the hash that is bumped is the loop's item
+                    it_leaves = sl.leaves_of_operand(nx.term["args"][0])
+                    if not derives_from(ctx, lb, sl, nx.term["args"][0], lambda evs: "INDEX_READ" in sem_set(evs)):
+                        continue
+                    if not (base(ha) & base(it_leaves)):
+                        continue
+                    # every iteration passes the increment: from the Some edge there is no way back to `next` around it
+                    for q in cfgutil.reach(lb, nx.term["t"]):
+                        c = cfgutil.switch_condition(lb, q)
+                        if c and c[0] == "discr" and not c[1]["p"] and c[1]["l"] == nx.term["dest"]["l"]:
+                            e = cfgutil.switch_edges(lb, q)
+                            some_t = e.get(1, e["otherwise"] if 0 in e else None)
+                            if some_t is not None and nx.bb not in cfgutil.reach(lb, some_t, removed_blocks=[inc.bb]):
+                                ok = True
+            r.check(ok, "refcount-after-fill", lb,
+                    "after the key map is assigned at %s:%d, a loop over it bumps the refcount once per entry" % (lb.file, w.line),
+                    "the key map is assigned as a whole at %s:%d but no loop over it bumps the reference count of each "
+                    "entry's hash once" % (lb.file, w.line), "%s:%d" % (lb.file, w.line))
+        r.check(bool(inserts) or bool(whole_keys), "loader-inserts", lb,
+                "%d insert site(s), %d whole assignment(s) of the key map in the loader" % (len(inserts), len(whole_keys)),
+                "the snapshot loader does not fill the key map")
+
+
+def load_rebuilds(ctx, r, loaders, cbs):
+    prog = ctx.prog
+    A = ctx.anchors
+    # (a) in the loader: every key that is loaded bumps the refcount of its hash once
+    loader_refcounts(ctx, r, loaders)
     # (b) in the load root: loader -> recompute stats -> replay on every path
     stats_bodies = set()
     stats_field = A.get("STATS")
@@ -464,7 +546,7 @@ def replay_skips(ctx, r):
                         leaves = keep | expand_up(ctx.world, b, leaves - keep, 3, sl)
                         desc = sorted(fmt_leaf(l) for l in leaves)
                         ok = bool(leaves) and all(
-                            (l[-1] and "version" in l[-1][-1]) or (l[0] == "param" and l[1] == 1 and l[2]) or
+                            is_version_leaf(ctx, l) or (l[0] == "param" and l[1] == 1 and l[2]) or
                             (l[0] == "xparam" and l[1][1] == 1 and l[2])
                             for l in leaves)
                         r.check(ok, "skip-branch", b,
@@ -750,7 +832,7 @@ def highest_version_accumulator(ctx, r):
 
         def is_record_version(op):
             lv = sl.leaves_of_operand(op)
-            return bool(lv) and all(l[-1] and "version" in l[-1][-1] and l[0] == "call" for l in lv)
+            return bool(lv) and all(is_version_leaf(ctx, l) and l[0] == "call" for l in lv)
 
         n_init = n_upd = 0
         larger_guards = []      # (switch, edge taken when the record's version exceeds the previous maximum)
@@ -867,7 +949,7 @@ def _closure_says_larger(ctx, b, sl, csite, tg, is_record_version):
             return None
         l = list(lv)[0]
         if l[0] == "upvar" and l[1] < len(cap_ops):
-            return "record" if is_record_version(cap_ops[l[1]]) or _ref_of_record_version(b, sl, cap_ops[l[1]], is_record_version) else None
+            return "record" if is_record_version(cap_ops[l[1]]) or _ref_of_record_version(ctx, b, sl, cap_ops[l[1]], is_record_version) else None
         if l[0] == "param" and l[1] >= 2:
             return "prev"
         return None
@@ -891,7 +973,7 @@ def _closure_says_larger(ctx, b, sl, csite, tg, is_record_version):
     return False
 
 
-def _ref_of_record_version(b, sl, op, is_record_version):
+def _ref_of_record_version(ctx, b, sl, op, is_record_version):
     """`&entry.version` captured by reference."""
     pl = place_of(op)
     if pl is None or pl["p"]:
@@ -899,7 +981,7 @@ def _ref_of_record_version(b, sl, op, is_record_version):
     for (dbb, j, rv) in b.assignments().get(pl["l"], []):
         if j != "term" and rv["k"] == "ref":
             lv = sl.leaves_of_place(rv["place"])
-            if lv and all(l[-1] and "version" in l[-1][-1] and l[0] == "call" for l in lv):
+            if lv and all(is_version_leaf(ctx, l) and l[0] == "call" for l in lv):
                 return True
     return False
 
